@@ -9,7 +9,7 @@ import (
 
 // C19: keep-alive in virtual time.
 func C19(c *core.Ctx) {
-	c.Rep.Bound = "HIST over timed histories in virtual time: keep-alive K in {1,2,10} s; actions advance(0.4K / 0.9K / 1.3K / 1.6K), PINGREQ, PUBLISH, first byte of a packet then its second byte; will configured, witness subscribed to '#'; every sequence (no de-duplication) to depth 5 (quick) / 6 (thorough)"
+	c.Rep.Bound = "HIST over timed histories in virtual time: keep-alive K in {1,2,10} s; actions advance(0.4K / 0.9K / 1.3K / 1.6K), PINGREQ, PUBLISH, first byte of a packet then its second byte; will configured, witness subscribed to '#'; every sequence (no de-duplication) to depth 5 (quick) / 6 (thorough); a second alphabet with PUBLISH packets of exactly 8192 and 8191 bytes (the receiver's read block)"
 	c.Rep.Rule = "the connection must be open and every PINGREQ answered while all gaps between client transmissions are < K; it must be closed and its will published once a gap exceeds 1.5 K; in between either; no wall-clock time is involved: the clock moves only by the advance actions; non-trivial = histories in which the connection is dropped"
 	ks := []int{1, 2, 10}
 	for _, k := range ks {
@@ -60,6 +60,22 @@ func C19(c *core.Ctx) {
 				return fmt.Sprintf("idle=%d", h.Now-x.lastRecv)
 			}}
 		spec.Search(c)
+		if c.HasViolation() || c.Expired() {
+			return
+		}
+		// packets that fill the receiver's 8 KiB read block exactly (and one byte less):
+		// how the bytes are cut into reads must not decide what counts as activity
+		if k == 10 {
+			continue
+		}
+		blk := *spec
+		blk.Name = fmt.Sprintf("keepalive-blocksize-%ds", k)
+		blk.Ops = []Action{
+			{Kind: "advance", D: K * 4 / 10}, {Kind: "advance", D: K * 9 / 10}, {Kind: "advance", D: K * 16 / 10},
+			{Kind: "ping", Client: "X"},
+			pub("X", "t", 0, 0, big(8192-6, 1)), pub("X", "t", 0, 0, big(8191-6, 2)), pub("X", "u", 1, 9, big(8192-8, 3)),
+		}
+		blk.Search(c)
 		if c.HasViolation() || c.Expired() {
 			return
 		}
